@@ -15,7 +15,7 @@ var c18Anchors = []string{
 
 func checkC18(w *World, r *Result) {
 	r.Explanation = "Decides, for every function of the analysis and generator packages (a superset of what is reachable from the public entry points), on every path: OBL-ASSERT every single-value type assertion succeeds (enclosing case, callee's static return type, named-kind receiver, or a justified invariant with a machine-checked call-site precondition OBL-PRE); OBL-INDEX/OBL-SLICE/OBL-ACCESSOR every index, slice and positional go/types accessor is dominated by a bound (range key, length guard, counted loop, groups of a constant regexp, minimal match length); OBL-NIL values from curated nil sources (Scope.Lookup, types.Info lookups, TypeAndValue.Value, map lookups of pointer/interface type, module functions with a nil return, conditionally assigned locals) are not dereferenced without a nil test; OBL-NILMAP stores into map-typed struct fields happen only on structs whose every construction initialises the map; REC-* every recursive call-graph SCC has a termination argument (memo registered before descent, Cache.Check guard cutting every cycle, import DAG, kind graph without a cycle through a cycle-capable node kind); EXH-a/PANIC-class defaults and panics are string/error diagnostics. Does not decide: general nil safety beyond the curated sources, nil-map writes through locals and parameters, stack depth of bounded recursion, panics raised inside go/types or x/tools, package cmd (its inputs are configuration, not Go source)."
-	r.Rules = []string{"OBL-ASSERT", "OBL-INDEX", "OBL-SLICE", "OBL-ACCESSOR", "OBL-NIL", "OBL-NILMAP", "OBL-PRE", "REC-C12a", "REC-memo", "REC-dag", "REC-kind", "REC-typeargs", "REC-table", "PKG-ID", "EXH-a", "PANIC-class"}
+	r.Rules = []string{"OBL-ASSERT", "OBL-INDEX", "OBL-SLICE", "OBL-ACCESSOR", "OBL-NIL", "OBL-NILMAP", "OBL-PRE", "REC-C12a", "REC-memo", "REC-dag", "REC-kind", "REC-typeargs", "REC-table", "PKG-ID", "EXH-a", "PANIC-class", "OBL lower bound for search results"}
 	r.Assumptions = []string{"inputs are well-typed Go packages (go/packages reported no error)", "go/types and x/tools do not panic themselves", "justified-invariant table entries (each with a one-line reason, listed as 'justified' obligations in this evidence)"}
 	for _, a := range c18Anchors {
 		w.MustFunc(a)
